@@ -22,7 +22,9 @@ func (event *Event) VerifHashBytes() []byte { return event.hashBytes() }
 func (event *Event) VerifHashEquals(h Hash) error { return event.hashEquals(h) }
 
 // VerifProductCache returns the cached product of an Update (nil if not computed yet).
-func (update *Update) VerifProductCache() (*big.Int, uint64) { return update.product, update.productFrom }
+func (update *Update) VerifProductCache() (*big.Int, uint64) {
+	return update.product, update.productFrom
+}
 
 // VerifFlags returns the memoised verification state of an EventList.
 func (el *EventList) VerifFlags() (verified bool, hasErr bool, product *big.Int) {
